@@ -240,11 +240,8 @@ TetApply(s0, c) ==
 (*                        PART 2 - DECLARATIVE LAYER                       *)
 (***************************************************************************)
 (* every face three edges, every cell four faces and four distinct vertices *)
-TetFaceOK(s, f) == LET hes == At(s.faces, f) IN
-                   Len(hes) = 3 /\ Cardinality({Full(h) : h \in Rng(hes)}) = 3
-TetCellOK(s, c) == LET hfs == At(s.cells, c) IN
-                   /\ Len(hfs) = 4 /\ Cardinality({Full(h) : h \in Rng(hfs)}) = 4
-                   /\ Cardinality(CellVertSet(s, c)) = 4
+TetFaceOK(s, f) == Len(At(s.faces, f)) = 3
+TetCellOK(s, c) == Len(At(s.cells, c)) = 4 /\ Cardinality(CellVertSet(s, c)) = 4
 TetShape(s) == /\ \A f \in LiveF(s) : TetFaceOK(s, f)
                /\ \A c \in LiveC(s) : TetCellOK(s, c)
 
